@@ -256,8 +256,9 @@ theorem spawnProc_le (s : Sys) (n) : SysLe t s (spawnProc s n) := by
   unfold spawnProc newInst
   simp only
   peel (spawn_le _ _)
-  refine (append_le s { name := n, seq := (s.insts.filter (·.name = n)).length + 1 } ?_).congr (by same)
-  intro h; simp at h
+  have h1 : SysLe t s ({ s with insts := s.insts ++ [{ name := n, seq := (s.insts.filter (·.name = n)).length + 1 }] } : Sys) :=
+    append_le s _ (by intro h; simp at h)
+  exact (h1.then (setState_le _ _ _)).congr (by same)
 
 theorem gotoCleanup_le (s : Sys) (t) : SysLe t s (gotoCleanup s t) := by
   unfold gotoCleanup; peel (setPc_le _ _ _); done_le
@@ -359,7 +360,7 @@ theorem stopReturn_le (s : Sys) (t k) : SysLe t s (stopReturn s t k) := by
   · exact setPc_le _ _ _
   · exact setPc_le _ _ _
 
-theorem apiFirst_le (s : Sys) (t op) : SysLe t s (apiFirst s t op) := by
+theorem apiFirst_le (s : Sys) (t h op) : SysLe t s (apiFirst s t h op) := by
   unfold apiFirst
   cases op with
   | start n => simp only; split <;> first | exact apiRet_le _ _ _ | exact setPc_le _ _ _
@@ -430,7 +431,9 @@ theorem armProcDoneAdded_le (s : Sys) (t i c) : SysLe t s (armProcDoneAdded s t 
   · exact (recordExit_le _ _).then (setPc_le _ _ _)
   · exact gotoCleanup_le _ _
 theorem armLockCleanup_le (s : Sys) (t i) : SysLe t s (armLockCleanup s t i) := by
-  unfold armLockCleanup; peel (setPc_le _ _ _); done_le
+  unfold armLockCleanup; split
+  · peel (setPc_le _ _ _); done_le
+  · exact setPc_le _ _ _
 
 theorem stepProc_le (s : Sys) (t i h pc) : SysLe t s (stepProc s t i h pc) := by
   cases pc <;> simp only [stepProc] <;>
@@ -476,9 +479,8 @@ theorem armStopMarked_le (s : Sys) (t i cr k) : SysLe t s (armStopMarked s t i c
   unfold armStopMarked
   simp only
   split
-  · peel (setPc_le _ _ _)
-    peel (emit_le _ _)
-    exact (stopMarkedPrep_le s i cr).congr (by same)
+  · peel (stopReturn_le _ _ _)
+    exact stopMarkedPrep_le _ _ _
   · split
     · peel (setPc_le _ _ _)
       peel (setInst_le _ _ _ (by inst_le))
@@ -523,12 +525,12 @@ theorem stepDepwaiter_le (s : Sys) (t o i pc) : SysLe t s (stepDepwaiter s t o i
   cases pc <;> simp only [stepDepwaiter] <;>
     first | exact SysLe.refl _ | exact setPc_le _ _ _ | (peel (setPc_le _ _ _); done_le)
 
-theorem armApiBegin_le (s : Sys) (t op) : SysLe t s (armApiBegin s t op) := by
+theorem armApiBegin_le (s : Sys) (t h op) : SysLe t s (armApiBegin s t h op) := by
   unfold armApiBegin
   cases op <;> simp only <;> first
     | exact setPc_le _ _ _
     | (split
-       · exact apiFirst_le _ _ _
+       · exact apiFirst_le _ _ _ _
        · exact setPc_le _ _ _)
 theorem armSpawnOrLock_le (s : Sys) (t n) : SysLe t s (armSpawnOrLock s t n) := by
   unfold armSpawnOrLock; split
@@ -536,9 +538,9 @@ theorem armSpawnOrLock_le (s : Sys) (t n) : SysLe t s (armSpawnOrLock s t n) := 
     · exact apiSpawn_le _ _ _
     · exact setPc_le _ _ _
   · exact apiRet_le _ _ _
-theorem stepApi_le (s : Sys) (t op pc) : SysLe t s (stepApi s t op pc) := by
+theorem stepApi_le (s : Sys) (t h op pc) : SysLe t s (stepApi s t h op pc) := by
   cases pc <;> simp only [stepApi] <;>
-    first | exact SysLe.refl _ | exact setPc_le _ _ _ | exact armApiBegin_le _ _ _ | exact apiFirst_le _ _ _
+    first | exact SysLe.refl _ | exact setPc_le _ _ _ | exact armApiBegin_le _ _ _ _ | exact apiFirst_le _ _ _ _
           | exact armSpawnOrLock_le _ _ _ | exact apiSpawn_le _ _ _
           | exact (emit_le _ _).then (setPc_le _ _ _)
 theorem armProbeBegin_le (s : Sys) (t n) : SysLe t s (armProbeBegin s t n) := by
@@ -564,7 +566,7 @@ theorem stepThread_le (s : Sys) (t : Tid) (h : Hints) : SysLe t s (stepThread s 
   · exact sdReturn_le _ _ _
   · split
     · exact stepProc_le _ _ _ _ _
-    · exact stepApi_le _ _ _ _
+    · exact stepApi_le _ _ _ _ _
     · exact stepStopper_le _ _ _ _
     · exact stepWaiter_le _ _ _ _
     · exact stepDepwaiter_le _ _ _ _ _
